@@ -96,6 +96,7 @@ def check(run, project):
     r3(run, project, roles)
     r4(run, roles)
     r5(run, project)
+    r8(run, project)
     r6(run, project)
     r7(run, project)
     run.floor("R1", 20, "region obligations")
@@ -438,6 +439,68 @@ def r5(run, project):
     obs = [s for s in walk_no_nested(ad) if isinstance(s, ast.Assign) and norm(s.targets[0]) == "self.is_obsolete"]
     run.ob("R5", len(obs) == 1 and norm(obs[0].value) == "True", "closing retires the region", "assert_done does not retire the region",
            module=cm, node=ad, func="SizeConstraint.assert_done", construct="is_obsolete on close")
+
+
+def r8(run, project):
+    """What a charge and a close DO, as decision tables over the path summaries of the two region methods (whatever way
+    they are written):
+      bytes_parsed  closed region -> ConstraintObsoleteError; armed and counted + size > limit -> anticipating: the
+                    anticipated error, nothing else; charging: the region is retired, the rest of the region is skipped
+                    and SizeConstraintExceededError is raised; in every other case no error;
+      assert_done   counted == limit -> quiet; else strict: SizeConstraintSubceededError, warn: the warning with that error
+                    and the rest of the region skipped; the region is retired on every path."""
+    from .. import paths
+    from .outcomes import check_table
+    cm = project.module(CONSTRAINTS)
+    bp = cm.functions().get("SizeConstraint.bytes_parsed")
+    ad = cm.functions().get("SizeConstraint.assert_done")
+    if bp is None or ad is None:
+        raise AnalysisError("C03: constraint methods not found")
+    size_p, ant_p = bp.args.args[2].arg, bp.args.args[3].arg
+    O, M, A = "truthy self.is_obsolete", "self.size_max is None", f"truthy {ant_p}"
+    X = f"self.size_max < self.size_already + {size_p}"
+    rest = "consume_bytes(self.size_max - self.size_already)"
+
+    def raised(p):
+        v = p.value
+        return (call_name(v) if isinstance(v, ast.Call) else paths.text(v)) if v is not None else "?"
+
+    def observe_bp(p):
+        if p.end != "raise":
+            return "no error"
+        fx = [(k, paths.text(e) if isinstance(e, ast.AST) else e) for k, e, _n in p.effects if k in ("store", "yieldfrom", "yield")]
+        retire = [("store", "self.is_obsolete = True"), ("yieldfrom", rest)]
+        fx = [x for x in fx if not x[1].startswith("self.size_already")]
+        return f"raise {raised(p)}" + (" after retiring the region and skipping its rest" if fx == retire else
+                                       f" after {fx}" if fx else "")
+    rows = [({O: True}, "raise ConstraintObsoleteError"),
+            ({M: False, X: True, A: True}, "raise AnticipatedSizeConstraintExceededError"),
+            ({M: False, X: True, A: False}, "raise SizeConstraintExceededError after retiring the region and skipping its rest")]
+    n = check_table(run, "R8", cm, bp, "SizeConstraint.bytes_parsed", rows, observe_bp, "no error",
+                    "a charge overruns exactly when the region is armed and counted + size exceeds its limit", "bytes_parsed outcome")
+    run.require(n >= 5, f"C03: only {n} paths through SizeConstraint.bytes_parsed")
+    mode = ad.args.args[2].arg
+    E, S = "self.size_already == self.size_max", f"truthy {mode}"
+
+    def observe_ad(p):
+        fx = [(k, paths.text(e) if isinstance(e, ast.AST) else e) for k, e, _n in p.effects if k in ("store", "yieldfrom", "yield")]
+        retired = ("store", "self.is_obsolete = True") in fx
+        fx = [x for x in fx if x != ("store", "self.is_obsolete = True")]
+        if p.end == "raise":
+            r = raised(p)
+            if r == "?" or p.truth(M) is True:
+                return "assertion"
+            return f"raise {r}" + ("" if retired else " without retiring the region") + (f" after {fx}" if fx else "")
+        if not fx:
+            return "quiet" + ("" if retired else " without retiring the region")
+        if fx == [("yield", "WarningEvent(error=SizeConstraintSubceededError(self))"), ("yieldfrom", rest)]:
+            return "warning, rest skipped" + ("" if retired else " without retiring the region")
+        return str(fx)
+    rows = [({M: True}, "assertion"), ({E: True}, "quiet"), ({E: False, S: True}, "raise SizeConstraintSubceededError"),
+            ({E: False, S: False}, "warning, rest skipped")]
+    n = check_table(run, "R8", cm, ad, "SizeConstraint.assert_done", rows, observe_ad, "quiet",
+                    "a close is quiet exactly when counted == limit, else it reports the shortfall", "assert_done outcome", closed=(M,))
+    run.require(n >= 3, f"C03: only {n} paths through SizeConstraint.assert_done")
 
 
 def r6(run, project):
